@@ -456,7 +456,7 @@ def trace_playback(pkgdir, harness, pretty, r, fail, cap):
   body = "".join("        // %s\n        vec![%s],\n" % (int.from_bytes(bytes(b), "little"), ", ".join(str(x) for x in b)) for b in vals)
   test = ("/// Test generated for harness `%s` (values from the CBMC trace of this run)\n///\n/// Check for `%s`: \"%s\"\n\n"
           "#[test]\nfn kani_concrete_playback_%s_%s() {\n    let concrete_vals: Vec<Vec<u8>> = vec![\n%s    ];\n"
-          "    kani::concrete_playback_run(concrete_vals, %s);\n}\n") % (pretty, fail["category"], fail["desc"], fn_name, h, body, fn_name)
+          "    kani::concrete_playback_run(concrete_vals, crate::%s);\n}\n") % (pretty, fail["category"], fail["desc"], fn_name, h, body, pretty)
   return test
 
 
@@ -637,6 +637,13 @@ def main():
 
   found = discover(pid)
   cap = TIER_CAP[a.tier]
+  global MEM_CAP_GB, MAX_JOBS
+  if a.tier == "thorough":
+    # deeper harnesses need more memory each: fewer at a time
+    if "VERIF_MEM_GB" not in os.environ:
+      MEM_CAP_GB = 18
+    if "VERIF_JOBS" not in os.environ:
+      MAX_JOBS = 3
   known = load_known()
   results, notes = {}, {"bounds": {}, "replays": 0, "assumptions": list(ASSUMPTIONS_COMMON)}
   inconclusive, violations, known_hits = [], [], []
